@@ -494,4 +494,8 @@ def check(ctx, rep):
     rule_resolution_not_memoised(ctx, rep)
     rule_rebuild_keeps_all(ctx, rep)
     rule_edit_targeted(ctx, rep)
+    from .c09 import rule_detector_fresh
+
+    # the edit lands where the detector says: positions taken before an earlier codemod of the run shifted the file point at other code
+    rule_detector_fresh(ctx, rep)
     rep.not_covered += ["preservation of every token of arbitrary call shapes through libcst", "argument order for star-args"]
